@@ -28,6 +28,8 @@ package sign
 // ---- start function (C20): a session is created only for non-nil key material, a non-empty message and a signer
 // set that is duplicate-free, contains this party, has more than threshold members and only shareholders.
 //@ func StartSignCommon$1
+// (C09) the session tag is derived under this protocol's OWN identifier (pairwise distinct across all start functions)
+//@   assert_at[C09] NewSession "helper, err := round.NewSession(info, sessionID, nil)": arg0.ProtocolID == ite(taproot, "frost/sign-threshold-taproot", "frost/sign-threshold") && arg0.FinalRoundNumber == 3
 //@   nopanic[C20]
 //@   requires v_result != nil ==> fcfgwf(v_result)
 //@   ensures[C20] result1 != nil ==> result0 == nil
